@@ -42,7 +42,7 @@ func (q *c20query) rated(sendIdx int) bool {
 // C20 — outbound traffic never exceeds the configured send budget.
 func c20(c *evid.Ctx) {
 	r := c.R.Fork("c20")
-	runs := c.Scale(400, 12000)
+	runs := c.Scale(400, 30000)
 	for run := 0; run < runs && c.NumViolations() < 20; run++ {
 		c20exact(c, r, run)
 	}
